@@ -38,6 +38,17 @@ for _init, _read, _write in (("a = [1]", "a[0]", "a[0] = 9"), ("a = make([]int64
     EXPECT.append({"src": "%s\ns = 0\nfunc touch() { %s; return 5 }\nswitch %s {\ncase touch(), 9: s = 1\ndefault: s = 3\n}\ns" % (_init, _write, _read), "field": "result",
                    "want": "i:3", "why": "a later value of the same case list is compared with the subject as it was, too"})
 
+# for-in visits the elements themselves: a pointer or a module in the list is what the loop variable holds
+for _src, _want, _why in (
+        ("p = new(int64); *p = 5\nr = []\nfor v in [p] { r += (v == p); *v = 6 }\nr += *p\nr", "[b:true,i:6]", "a pointer element is handed to the loop variable as the pointer it is"),
+        ("module a { func who() { return \"a\" } }\nmodule b { func who() { return \"b\" } }\nr = []\nfor m in [a, b] { r += m.who() }\nr", "[s:61,s:62]",
+         "a module element is handed to the loop variable as the module it is"),
+        ("c = make(chan interface, 2); p = new(int64); *p = 7; c <- p; close(c)\nr = []\nfor v in c { r += (v == p); r += *v }\nr", "[b:true,i:7]",
+         "a pointer received in a for-in over a channel is the pointer that was sent"),
+        ("e0 = nil; try { throw \"x\" } catch q { e0 = q }\nr = \"\"\nfor v in [e0] { try { throw v } catch w { r = \"rethrown\" } }\nr", "s:7265746872 6f776e".replace(" ", ""),
+         "an error value in a list is still an error value in the loop variable")):
+    EXPECT.append({"src": _src, "field": "result", "want": _want, "why": _why})
+
 
 def product():
     out = []
